@@ -430,7 +430,7 @@ class NumpyCodegenMapper(CachedMapper[str, Never, []]):
         return expr.name
 
     def map_stack(self, expr: Stack) -> str:
-        assert isinstance(expr.axis, int)
+        assert isinstance(expr.axis, INT_CLASSES)
 
         rec_ids = [self.rec(ary) for ary in expr.arrays]
         lhs = self.vng("_pt_tmp")
@@ -438,12 +438,12 @@ class NumpyCodegenMapper(CachedMapper[str, Never, []]):
                        args=[ast.List([ast.Name(id_)
                                        for id_ in rec_ids])],
                        keywords=[ast.keyword(arg="axis",
-                                             value=_constant(expr.axis))])
+                                             value=_constant(int(expr.axis)))])
 
         return self._record_line_and_return_lhs(lhs, rhs)
 
     def map_concatenate(self, expr: Concatenate) -> str:
-        assert isinstance(expr.axis, int)
+        assert isinstance(expr.axis, INT_CLASSES)
 
         rec_ids = [self.rec(ary) for ary in expr.arrays]
         lhs = self.vng("_pt_tmp")
@@ -451,7 +451,7 @@ class NumpyCodegenMapper(CachedMapper[str, Never, []]):
                        args=[ast.List([ast.Name(id_)
                                        for id_ in rec_ids])],
                        keywords=[ast.keyword(arg="axis",
-                                             value=_constant(expr.axis))])
+                                             value=_constant(int(expr.axis)))])
 
         return self._record_line_and_return_lhs(lhs, rhs)
 
@@ -461,9 +461,9 @@ class NumpyCodegenMapper(CachedMapper[str, Never, []]):
                        args=[ast.Name(self.rec(expr.array)),
                              ],
                        keywords=[ast.keyword(arg="shift",
-                                             value=_constant(expr.shift)),
+                                             value=_constant(int(expr.shift))),
                                  ast.keyword(arg="axis",
-                                             value=_constant(expr.axis))])
+                                             value=_constant(int(expr.axis)))])
 
         return self._record_line_and_return_lhs(lhs, rhs)
 
